@@ -116,7 +116,10 @@ func (tc *typechecker) obsoleteForRangeAssign(node ast.Node, leftExpr, rightExpr
 		right.setValue(left.Type)
 		tc.compilation.typeInfos[leftExpr] = left
 	default:
-		panic(internalError("unexpected"))
+		// Simple assignment to an expression that is not a name.
+		str := leftExpr.String()
+		tc.checkAssignTo(tc.checkExpr(leftExpr), leftExpr)
+		panic(tc.errorf(leftExpr, "range with non-name %s on left side of = is not supported in this release of Scriggo", str))
 	}
 
 	return ""
